@@ -980,12 +980,33 @@ func logsString(logs types.ChangeLogSlice) string {
 	return b.String()
 }
 
+// c07Calls decides the clause "a failed contract call leaves [no trace] beyond the failure event the
+// platform deliberately records" on the EVM world of C16 (generated contracts, Call/Create entries,
+// out-of-gas sweep, nested failures): only the failed-call clauses of that scenario count here, under
+// C07 signatures; everything else it checks is C16's business and is dropped.
+func c07Calls(c *Ctx) {
+	c16Scenario(c)
+	var keep []Violation
+	for _, v := range c.Violations {
+		for _, pre := range []string{"C16/failed-", "C16/nested-failed-", "C16/nested-failure/", "C16/out-of-gas/"} {
+			if strings.HasPrefix(v.Sig, pre) {
+				v.Sig = "C07/failed-call/" + strings.TrimPrefix(v.Sig, "C16/")
+				keep = append(keep, v)
+				break
+			}
+		}
+	}
+	c.Violations = keep
+}
+
 func c07Scenario(c *Ctx) {
 	switch c.Var {
 	case "redo":
 		c07Redo(c)
 	case "discard":
 		c07Discard(c)
+	case "calls":
+		c07Calls(c)
 	default:
 		c07Unit(c)
 	}
@@ -994,14 +1015,14 @@ func c07Scenario(c *Ctx) {
 func init() {
 	Register(&PropDef{
 		ID:       "C07",
-		Variants: []string{"paths", "wild", "paths", "redo", "wild", "discard"},
+		Variants: []string{"paths", "wild", "paths", "redo", "wild", "discard", "calls"},
 		Scenario: c07Scenario,
 		Rule: "unit variants (paths/wild): 8-60 tape-generated operations on 2-5 accounts of a real account.Manager over the real store (genesis, optionally a committed block 1 " +
 			"built from 6-14 generated setters): every SafeAccount setter, Manager.AddEvent, interleaved getters, Snapshot (depth <= 8), RevertToSnapshot(innermost or any live id), " +
 			"writes after revert, (wild) Merge/Finalise anywhere; the photograph of a snapshot is either a full dump taken on the manager itself or the dump of a twin manager that " +
 			"replayed the same history; after the sequence the merged journal is RLP round-tripped and replayed with RebuildAll on the parent. A unit run is non-trivial when >=1 revert " +
 			"undid >=1 journal entry. redo variant: 1-3 blocks mined by the real assembler/tx processor, non-trivial when >=1 block with >=1 transaction was rebuilt. discard variant: " +
-			"non-trivial when the miner discarded >=1 transaction and packaged >=1. distinct = distinct event-log digests (operations and their results are logged)",
+			"non-trivial when the miner discarded >=1 transaction and packaged >=1. calls variant: the EVM world of C16 (see there), only its failed-call clauses. distinct = distinct event-log digests (operations and their results are logged)",
 		Real: []string{"chain/account (Manager, SafeAccount, Account, LogProcessor, change logs, log merging)", "chain/types change-log codec", "store (ChainDatabase, tries) on the simulated disk",
 			"redo/discard: chain/consensus BlockAssembler + chain/transaction TxProcessor + chain/vm via the block factory"},
 		Stub: []string{"callers of the account layer (operation sequences generated from the tape)"},
